@@ -367,7 +367,7 @@ struct Model {
 // ------------------------------------------------------------------------------------------------ generator
 struct GenOpts {
   int nmods = 2, nfuncs = 3, body = 6; bool lref = true, jt = true, icall = true, ext = true, mem = true, loops = true, doubles = true, recursion = true, sw = true;
-  int max_na = 8; int sw_weight = 8; bool gvar = true, fpbranch = true, ldiff = true, extn = false;
+  int max_na = 8; int sw_weight = 8; bool blocked = false; bool gvar = true, fpbranch = true, ldiff = true, extn = false;
 };
 struct Generator {
   Rng &r; GenOpts o; std::vector<FuncInfo> fs; int cur = 0; int depth = 0; bool in_loop = false;
@@ -445,7 +445,7 @@ struct Generator {
       for (int k = 0; k < n; k++) body.push(stmt());
       Json rt = Json::array(); rt.push("ret"); rt.push(Json(S("v%d", (int) r.below(NLOC - 1)))); body.push(rt);
       f.set("body", body);
-      mods[i % o.nmods]["funcs"].push(f);
+      mods[o.blocked ? (size_t) (i / o.nfuncs) % (size_t) o.nmods : (size_t) (i % o.nmods)]["funcs"].push(f);  // blocked: neighbours (caller/callee) share a module
     }
     prog.set("mods", mods);
     return prog;
